@@ -86,7 +86,14 @@ pub const BODIES: &[&str] = &[
     "local A, B = {}, {}\nfunction A:one() return self['x'] end\nfunction B:two(n) return self['y'] + n end\nfunction A.B_link(...) return B:two(...) end\nlocal r = A:one() + B:two(1) + ('str'):len()\nmark({M}, r, A['B_link'](B, 2))\nreturn A\n",
     // 40: globals DEBUG, _G.DEBUG and a second injected-looking global
     "if DEBUG and VERSION then\n\tprint(_G.VERSION, _G['DEBUG'])\nend\nlocal function f(DEBUG)\n\treturn DEBUG or VERSION\nend\nmark({M}, f(false))\nreturn VERSION\n",
+    // 41: types of a required module reached through an alias of the module value (the
+    // bundler renames and hoists exported types; `types` is not bound to a require call)
+    "local types = dep0\nexport type Id = number\nexport type Pair<K, V> = { key: K, value: V }\nlocal function pick(v: types.Id): types.Pair<types.Id, string>\n\treturn { key = v, value = tostring(v) }\nend\nmark({M}, pick)\nreturn { pick = pick }\n",
 ];
+
+/// Bodies that declare and use exported types (several bundled modules then export the same
+/// type names).
+pub const TYPE_BODIES: &[usize] = &[33, 41, 33, 41, 5, 28];
 
 /// Bodies that do not parse (content faults).
 pub const SYNTAX_ERRORS: &[&str] = &[
